@@ -15,3 +15,30 @@ func init() {
 		regionSpec{fn: f, name: "expirationRules", from: "if ms.base.childHeight() <= fc.ExpirationHeight"},
 	)
 }
+
+func init() {
+	// C10 — the range check of v1 covered fields (guard of fix 14c9be0): closure `inRange` and the body that calls it
+	regionRoots = append(regionRoots,
+		regionSpec{fn: "consensus.validCoveredFields", name: "body", from: "if cf.WholeTransaction"},
+	)
+}
+
+func init() {
+	// C07/C01/C08 — the v1 contract rules (formation and revision loop bodies of validateFileContracts)
+	const f = "consensus.validateFileContracts"
+	regionRoots = append(regionRoots,
+		regionSpec{fn: f, name: "formationRules", from: "if fc.WindowStart < ms.base.childHeight()"},
+		regionSpec{fn: f, name: "revisionRulesA", from: "if fcr.UnlockConditions.Timelock > ms.base.childHeight()", to: "parent, ok := ms.fileContractElement"},
+		regionSpec{fn: f, name: "revisionRulesB", from: "parent, ok := ms.fileContractElement"},
+	)
+	extFuncs[coreMod+"/consensus.State.FileContractTax"] = "FileContractTax"
+	extFuncs[coreMod+"/consensus.MidState.fileContractElement"] = "fileContractElement"
+	extFuncs[coreMod+"/types.UnlockConditions.UnlockHash"] = "UnlockHash"
+}
+
+func init() {
+	// C04 — the block supplement: every v1 parent record must be a member of the accumulator (whole function, loops included)
+	extFuncs[coreMod+"/consensus.ElementAccumulator.containsUnresolvedFileContractElement"] = "containsUnresolvedFileContractElement"
+	extFuncs[coreMod+"/consensus.ElementAccumulator.containsResolvedFileContractElement"] = "containsResolvedFileContractElement"
+	tcodeRoots = append(tcodeRoots, "consensus.validateSupplement")
+}
